@@ -26,6 +26,12 @@ def families(tier):
     def add(fam, sid, N, hs, main, names=('A',), **params):
         out.append(dict(prop='C13', family=fam, id=f'{fam}/N{N}-{sid}', cfg=cfg, params=dict(N=N, **params),
                         scn=dict(buses={b: dict(hist=N) for b in names}, order=list(names), handlers=hs, main=main, actors=[], forwards=[], settle=3.0, watch_hist=True)))
+        if fam != 'c13.stream' and N <= 3:
+            # the same history with an external dispatcher racing against the handlers (its events land between any two steps)
+            hs2 = list(hs) + ([] if any(h['pat'] == 'Y' for h in hs) else [dict(bus='A', pat='Y', name='hy', prog=[('pause',)])])
+            out.append(dict(prop='C13', family=fam + '_raced', id=f'{fam}_raced/N{N}-{sid}', cfg=dict(cfg, bound=2, cap=3000 if not deep else 20000), params=dict(N=N, **params),
+                            scn=dict(buses={b: dict(hist=N) for b in names}, order=list(names), handlers=hs2, main=main,
+                                     actors=[[('pause',), ('disp', 'A', 'Y1', 'ff'), ('pause',), ('disp', 'A', 'Y2', 'ff')]], forwards=[], settle=3.0, watch_hist=True)))
 
     maxlen = 6 if deep else 5
     for N in Ns:
